@@ -98,7 +98,7 @@ func vfC03Gen(rt *rapid.T) vfC03Case {
 				}
 				op.Qs = append(op.Qs, vfGenText(rt, "query", 3))
 			}
-			op.K = rapid.IntRange(-2, len(live)+2).Draw(rt, "k")
+			op.K = vfGenK(rt, -2, len(live), 2)
 			var known []uint32
 			known = append(known, live...)
 			known = append(known, removed...)
